@@ -272,7 +272,7 @@ def run(ctx):
         A = A.astype(complex) if np.iscomplexobj(A) and np.any(A.imag) or c.get('complex') else A.real.astype(float)
         mats.append((c.get('class', 'corpus'), A, c.get('name', 'corpus'), True))
     # ---- generated matrices
-    nmat = 80 if ctx.quick() else 600
+    nmat = 80 if ctx.quick() else 450
     sizes = [1, 2, 3, 3, 4, 4, 5, 5, 6, 7, 8]
     k = 0
     while len(mats) < len(corpus) + nmat:
@@ -474,8 +474,11 @@ def cg_sweep(ctx, pym):
                           replay, expected=f'<= {10 * tol}', got=rel.tolist().__repr__())
 
     def rhs(n, kind, cplx):
-        b = lc.gen_rhs(rng, n, kind, cplx)
-        return b
+        # CG's exit test is relative to ||b|| per column: a zero column is outside its domain (tval = inf/nan)
+        while True:
+            b = lc.gen_rhs(rng, n, kind, cplx)
+            if np.all(np.any(b.reshape(n, -1) != 0, axis=0)):
+                return b
 
     nm = 10 if ctx.quick() else 60
     for k in range(nm):
